@@ -321,7 +321,7 @@ func runC01(c *core.Check) {
 				if nt == nil || nt.Obj().Pkg() != apk.Types || gapk.Types.Scope().Lookup(nt.Obj().Name()) == nil {
 					continue // XGo-only node kinds belong to C02–C05
 				}
-				checkFieldsRead(c, pk, xpk, nodeI, nt, cc, info.Implicits[cc], fieldReadRule{prefix: "lower", verb: "lowers", omitted: c01FieldOmitted, derived: c01FieldDerived})
+				checkFieldsRead(c, pk, xpk, nodeI, nt, cc, info.Implicits[cc], fieldReadRule{prefix: "lower", verb: "lowers", omitted: c01FieldOmitted, derived: c01FieldDerived, compareIsUse: true})
 			}
 		}
 	}
